@@ -10,7 +10,7 @@ Expected (property C05): the objective contains the quadrature of the integrand.
 used it must integrate constants exactly, so integral(1)=T=2 here, and integral(p**2+1) >= 2.
 """
 import sys
-sys.path.insert(0, '/tmp/nx_pydeps')   # networkx, needed by SplineMethod
+sys.path.insert(0, '/verif/pydeps')   # networkx, needed by SplineMethod
 import numpy as np
 import casadi as ca
 from rockit import Ocp, SplineMethod
